@@ -75,7 +75,8 @@ class Scene(object):
 
     def __init__(self, adapter, nr, placement, cw, ch):
         # placement may carry options: 'tl:ws' = WINDOW SCREEN (translated logical coordinates),
-        # 'tl:wc' = WINDOW (translated, y upwards), ':draw' = painted through DRAW "BMx,y Pf,b"
+        # 'tl:wc' = WINDOW (translated, y upwards), ':draw' = painted through DRAW "BMx,y Pf,b",
+        # 'view:rv' = a refused VIEW statement after the viewport was set
         self.full_placement = placement
         opts = placement.split(':')[1:]
         placement = placement.split(':')[0]
@@ -96,6 +97,12 @@ class Scene(object):
             g.must(b'VIEW %s(8,8)-(%d,%d)' % (b'SCREEN ' if placement == 'view' else b'', 8 + cw - 1, 8 + ch - 1))
             self.vp = (8, 8, 8 + cw - 1, 8 + ch - 1)
             self.ox, self.oy = (0, 0) if placement == 'view' else (8, 8)
+            if 'rv' in opts:
+                # a later VIEW that is refused (fill attribute out of range): the viewport above stays in force
+                r = H.run(g.s, b'VIEW (2,2)-(%d,%d),300' % (W - 3, Hh - 3))
+                if r.exc is not None or r.err is None:
+                    raise CheckError('VIEW with fill 300 was not refused: %r' % (r,))
+                g.must(b'LOCATE 1,1')
         elif placement == 'tl':
             self.wx, self.wy = 0, 0
             for y in range(ch + 1):
@@ -479,10 +486,10 @@ def _legs(ctx):
                        work_grid, exhaustive=True,
                        bound='all 512 border bitmaps of a 3x3 window x all 9 seeds x {fill!=border, fill==border} '
                              'in 6 (mode, placement) configurations'))
-        out.append(Leg('ring', [('cga', 1, p, 2, 0, 16, True) for p in ('view', 'viewrel', 'tl', 'br')] +
+        out.append(Leg('ring', [('cga', 1, p, 2, 0, 16, True) for p in ('view', 'viewrel', 'tl', 'br', 'view:rv', 'viewrel:rv')] +
                        [('vga', 7, 'viewrel', 3, lo, lo + 64, True) for lo in range(0, 512, 64)],
                        work_grid, exhaustive=True,
-                       bound='all 16 bitmaps of a 2x2 window x all 16 seeds of the surrounding 4x4 x 2 fills, 4 placements; '
+                       bound='all 16 bitmaps of a 2x2 window x all 16 seeds of the surrounding 4x4 x 2 fills, 4 placements (+ both viewports after a refused VIEW); '
                              'all 512 bitmaps of a 3x3 window x all 25 seeds of the surrounding 5x5 x 2 fills in vga SCREEN 7'))
         out.append(Leg('tern', [('cga', 1, 'view', 3, 2, fl, lo, lo + 243) for fl in ('fill', 'other')
                                 for lo in range(0, 729, 243)], work_tern, exhaustive=True,
